@@ -184,6 +184,6 @@ int main(int argc, char **argv) {
   if (argc == 3 && std::string(argv[1]) == "--first-use-child") return firstUseChild(argv[2]);
   add<C>("threads", 3, genC, ser, de, runThreads);
   add<C>("independent", 1, genC, ser, de, runIndep);
-  add<C>("first_use", 0.5, genC, ser, de, runFirstUse);
+  add<C>("first_use", 1, genC, ser, de, runFirstUse);
   return main_(argc, argv);
 }
